@@ -33,7 +33,7 @@ theorem c_index_eq (bs : List (Int × Int)) (idx : List Int) (o : Nat) (hne : bs
     | cons b bs ih =>
       cases idx with
       | nil => simp
-      | cons i is => simp [normIdx, ih is (by simpa using hl)]; omega
+      | cons i is => simp [normIdx, ih is (by simpa using hl)]
   unfold cIndex cSubscripts
   simp only [hz]
   generalize hD : List.zipWith (fun (b : Int × Int) i => i - b.1) bs idx = D at *
@@ -41,7 +41,7 @@ theorem c_index_eq (bs : List (Int × Int)) (idx : List Int) (o : Nat) (hne : bs
   generalize hS : bs.map normExt = Sx at *
   have hd3 : (List.map (fun x => x - 1) (List.map (fun x => x + 1) D).reverse) = D.reverse := by
     rw [← List.map_reverse, List.map_map]
-    have : ((fun x : Int => x - 1) ∘ fun x => x + 1) = id := by funext x; simp; omega
+    have : ((fun x : Int => x - 1) ∘ fun x => x + 1) = id := by funext x; simp
     rw [this]; simp
   rw [hd3]
   cases hDr : D.reverse with
@@ -81,7 +81,8 @@ theorem c_index_eq (bs : List (Int × Int)) (idx : List Int) (o : Nat) (hne : bs
       simp
 
 /-- non-vacuity: `a(0:2, -1:3)`, element `(1, 2)` is the cell at offset 10 -/
-example : offset [(0, 2), (-1, 3)] [1, 2] = some 10 ∧ cIndex [(0, 2), (-1, 3)] [1, 2] = some 10 := by decide
+example : offset [(0, 2), (-1, 3)] [1, 2] = some 10 ∧ cIndex [(0, 2), (-1, 3)] [1, 2] = some 10 :=
+  ⟨by decide, c_index_eq _ _ 10 (by simp) (by decide)⟩
 
 /-- **C35, integer division**: C99 `/` is Fortran `/` for every sign combination -/
 theorem c_div_eq (a b : Int) : cDiv a b = fDiv a b := cDiv_eq_tdiv a b
